@@ -209,7 +209,7 @@ pub fn replay_dist(args: &Args) {
             s[1].iter().map(|x| x.len()).collect(),
         ];
         // a player without a multi-action infoset still needs to be in the game: give it a single
-        let singles = [0, if nacts[1].is_empty() { 1 } else { 0 }];
+        let singles = [if nacts[0].is_empty() { 1 } else { 0 }, if nacts[1].is_empty() { 1 } else { 0 }];
         let tree = strat_game([&nacts[0], &nacts[1]], singles);
         let (sc, tc) = (s.clone(), t.clone());
         let res = util::catch(move || {
